@@ -687,21 +687,24 @@ def _validate_on_missing(on_missing: str) -> None:
         raise ValueError(f"Invalid on_missing={on_missing!r}. Expected one of: {', '.join(_VALID_ON_MISSING)}")
 
 
-def _validate_max_concurrency(max_concurrency: int | None) -> None:
+def _validate_max_concurrency(max_concurrency: int | None) -> int | None:
     """Validate max_concurrency eagerly: None (no limit) or a positive integer.
+
+    Returns the value as a plain int (what the semaphore and the worker pool get).
 
     0 would admit no node at all (run() would wait forever, map() would start
     no worker and return []), a negative value is rejected by the semaphore
     only after events have been emitted.
     """
     if max_concurrency is None:
-        return
+        return None
     try:
         value = operator.index(max_concurrency)
     except TypeError:
         value = 0
     if value < 1:
         raise ValueError(f"Invalid max_concurrency={max_concurrency!r}. Expected None (no limit) or an integer >= 1")
+    return value
 
 
 _VALID_ERROR_HANDLING = ("raise", "continue")
